@@ -288,3 +288,49 @@ func scenarioReturnToFullGrant(ctx *RunCtx) {
 		}
 	}
 }
+
+// C04 / C10 / C16: the grant is fixed when the user approves.  A ValidateBackAuthFunc that approves AND narrows
+// the session's granted scopes (BaNarrow: openid of openid email) is followed by polls naming nothing, the
+// kept scope, the dropped scope and the full original list; tokens that come out are refreshed with the
+// dropped scope and with nothing.  The request validation must see the grant as the callback left it.
+func scenarioCibaNarrowedAtApproval(ctx *RunCtx) {
+	for _, fl := range []string{"copy", "alias"} {
+		for _, id := range []int{5, 6} { // poll, ping
+			opts := []Opt{{Name: "WithScopes", Scopes: serverScopes}, {Name: "WithCIBAGrant"}, {Name: "WithRefreshTokenGrant", Z: 600},
+				{Name: "WithTokenIntrospection"}, {Name: "WithTokenLifetime", Z: 80}}
+			g, err := NewSysGen(ctx.R, WorldSpec{Profile: "openid", Flavour: fl, Static: append(baseClients(ctx.R), cibaClients()...), Opts: opts})
+			if err != nil {
+				panic(err)
+			}
+			cred := Cred{ID: id, OK: true}
+			for _, scope := range []string{"", "openid", "email", "openid email", "email openid"} {
+				for _, ba := range []string{"BaNarrow", "BaApprove"} {
+					p := Params{Scopes: "openid email", LoginHint: "alice"}
+					if id != 5 {
+						p.NotifToken = unknownBase + 5100
+					}
+					bc := g.do(Op{Kind: "BcAuthorize", Cred: cred, Params: p, InitOK: true, Sub: "alice", Granted: "openid email"})
+					if bc.Kind != "Ciba" {
+						panic(fmt.Sprintf("ciba narrowing scenario: no auth_req_id: %+v", bc))
+					}
+					o := g.do(Op{Kind: "Token", Grant: "urn:openid:params:grant-type:ciba", Cred: cred, AuthReq: bc.H, Scope: scope, HG: "HgOk", BA: ba})
+					if o.Kind == "Tokens" {
+						g.do(Op{Kind: "Introspect", Cred: cred, Tok: PTok{Kind: "PExact", H: o.At}, Allowed: true})
+						if o.Rt != 0 {
+							r1 := g.do(Op{Kind: "Token", Grant: "refresh_token", Cred: cred, Refresh: o.Rt, Scope: "email", HG: "HgOk", BA: "BaApprove"})
+							rt := o.Rt
+							if r1.Kind == "Tokens" && r1.Rt != 0 {
+								rt = r1.Rt
+							}
+							g.do(Op{Kind: "Token", Grant: "refresh_token", Cred: cred, Refresh: rt, HG: "HgOk", BA: "BaApprove"})
+						}
+					}
+					// the request is consumed either way
+					g.do(Op{Kind: "Token", Grant: "urn:openid:params:grant-type:ciba", Cred: cred, AuthReq: bc.H, HG: "HgOk", BA: "BaApprove"})
+				}
+			}
+			ctx.AddCase(g.Case(fmt.Sprintf("scenario:ciba-narrowed-at-approval/c%d/%s", id, fl)))
+			ctx.AddStats(g.stats)
+		}
+	}
+}
